@@ -17,6 +17,9 @@ RULE = ("signature trees built with the real API: (1) exhaustive chains of neste
         "(drop/rename member, width, init, flip a leaf or an interface, port<->interface, dims, several outputs, constants, "
         "non-compliant attribute) compared on the error kind; (3) the same signatures against the SPEC answers "
         "(created interface complies and flattens to the specification leaves; connect assigns every input from the one output). "
+        "(4) input-only leaves: tuples of 2-4 interfaces with one Out/In-paired data leaf next to a leaf that is In in every "
+        "argument (flat / through In(sig), sig.flip() routes / arrayed), differing in width, signedness, init in one argument "
+        "or not at all, both argument orders, with and without any output. "
         "non-trivial = at least one port leaf and, for connect, at least 2 arguments; distinct by case hash")
 MODELLED = ("wiring.py Member/Signature/FlippedSignature(+Members), flatten, create, is_compliant, FlippedInterface "
             "attribute access, flipped(), connect(), ComponentMetadata.as_json are modelled in coq/Model/Wiring.v; "
@@ -371,7 +374,66 @@ def gen_cases(tier, seed):
         depth = rng.choice((1, 2, 2, 3, 3, 4))
         s = rnd_sig(rng, depth, oor=0.04, ifd=rng.random() < 0.4)
         add_all(s, False, 0.5 if i % 2 == 0 else 0)
+    # (3) a leaf that is an input in EVERY argument (no output on it): widths / inits must still agree
+    cases += in_only_cases(random.Random(seed * 7919 + 14), thorough)
     return cases
+
+
+def _in_route(route, sd, init, dims):
+    """a member named 'ab' whose single port ('ab' itself or 'ab.a' / 'ab.b.a') has effective direction In."""
+    port = lambda f: ["p", f, sd, init, dims]
+    if route == "flat":
+        return ["p", 1, sd, init, dims]
+    if route == "in_iface":        # In(Signature({a: Out}))
+        return ["i", 1, False, [["a", port(0)]], []]
+    if route == "out_flipped":     # Out(Signature({a: Out}).flip())
+        return ["i", 0, True, [["a", port(0)]], []]
+    if route == "in_flipped":      # In(Signature({a: In}).flip())
+        return ["i", 1, True, [["a", port(1)]], []]
+    if route == "out_plain":       # Out(Signature({a: In}))
+        return ["i", 0, False, [["a", port(1)]], []]
+    raise ValueError(route)
+
+
+ROUTES_FLAT = ["flat"]
+ROUTES_NESTED = ["in_iface", "out_flipped", "in_flipped", "out_plain"]
+
+
+def in_only_cases(rng, thorough):
+    """tuples of 2..4 interfaces with a data leaf (one Out, the rest In) next to a leaf that is In everywhere;
+    the input-only leaf differs in width / signedness / init in exactly one argument, or not at all."""
+    base_sd, base_init = ["u", 3], 2
+    variants = [("equal", ["u", 3], 2), ("width", ["u", 4], 2), ("sign", ["s", 3], 2), ("init", ["u", 3], 3),
+                ("width_sign", ["s", 4], 2), ("none_vs_0", ["u", 3], None)]
+    out = []
+    dimss = ([], [2], [2, 3]) if thorough else ([], [2])
+    ks = (2, 3, 4) if thorough else (2, 3)
+    for nested in (False, True):
+        routes = ROUTES_NESTED if nested else ROUTES_FLAT
+        for dims in dimss:
+            for vname, vsd, vinit in variants:
+                for k in ks:
+                    for with_data in (True, False) if (thorough or (k == 2 and not dims)) else (True,):
+                        reps = 2 if (nested or thorough) else 1
+                        for _ in range(reps):
+                            bi = 0 if vname == "none_vs_0" else base_init
+                            odd = rng.randrange(k)            # the argument that differs
+                            dname = rng.choice(("B", "z9"))   # data leaf sorts before / after the input-only one
+                            sigs = []
+                            for h in range(k):
+                                sd, init = (vsd, vinit) if h == odd else (base_sd, bi)
+                                ms = [["ab", _in_route(rng.choice(routes), sd, init, dims)]]
+                                if with_data:
+                                    ms.append([dname, ["p", 0 if h == 0 else 1, ["u", 2], 1, []]])
+                                    if rng.random() < 0.5:
+                                        ms.reverse()
+                                sigs.append({"w": False, "ms": ms})
+                            order = list(range(k))
+                            for rev in (False, True):
+                                o = list(reversed(order)) if rev else order
+                                out.append({"k": "connect", "sigs": sigs, "args": [arg(h, False, False) for h in o],
+                                            "c": "inonly_" + vname + ("" if with_data else "_nodata")})
+    return out
 
 
 # ------------------------------------------------------------------ classification
